@@ -22,7 +22,9 @@ fn run_tree_paths<Tr: TreeApi>(rep: &mut Rep, spec: &SeqSpec, budget: usize) {
     let o = BatOpts::new(budget);
     let mut built: Vec<(u8, Tr, Digest)> = Vec::new();
     let mut fresh_clone: Option<Tr> = None;
-    for path in 0..3u8 {
+    // (interpreter lanes: the three constructors and the spare-capacity vector)
+    let n_paths = if crate::tiny() { 4 } else { crate::props::trees::N_PATHS };
+    for path in 0..n_paths {
         if let Some(t) = guarded_build::<Tr>(rep, &data, path) {
             if path == 0 {
                 // a copy taken before the original answers any query
@@ -30,7 +32,7 @@ fn run_tree_paths<Tr: TreeApi>(rep: &mut Rep, spec: &SeqSpec, budget: usize) {
             }
             let mut r = rng.clone();
             // the value built through the last path is compared while it has never been queried
-            let d = if path < 2 { tree_battery(rep, &t as &dyn DynTree<Tr::Item>, &m, &mut r, &o) } else { Digest::default() };
+            let d = if path != 2 { tree_battery(rep, &t as &dyn DynTree<Tr::Item>, &m, &mut r, &o) } else { Digest::default() };
             built.push((path, t, d));
         }
     }
@@ -38,10 +40,10 @@ fn run_tree_paths<Tr: TreeApi>(rep: &mut Rep, spec: &SeqSpec, budget: usize) {
         chk!(rep, "queried value == its never-queried clone", n, Exp::Is(true), t0 == fc);
         chk!(rep, "never-queried clone == queried value", n, Exp::Is(true), fc == t0);
     }
-    if !Tr::KIND.is_huff() && built.len() == 3 {
+    if !Tr::KIND.is_huff() && built.len() >= 3 {
         chk!(rep, "queried value == never-queried value built by another path", n, Exp::Is(true), built[0].1 == built[2].1);
     }
-    if built.len() == 3 {
+    if built.len() >= 3 {
         let mut r = rng.clone();
         built[2].2 = tree_battery(rep, &built[2].1 as &dyn DynTree<Tr::Item>, &m, &mut r, &o);
     }
